@@ -32,7 +32,7 @@ THEOREMS = [
     "detailed_balance_M",
 ]
 
-RULE = ("random table Hamiltonians (1-4 variables, 1-5 bonds on 1 or 2 variables, constant flags, diagonal weights from "
+RULE = ("random table Hamiltonians (1-4 variables, 1-5 bonds on 1-4 variables (3-/4-variable diagonal terms with the unique maximum at a uniformly chosen sub-state index), constant flags, diagonal weights from "
         "{0,1/8,...,6} incl. all-zero bonds), beta in {1/8..4}, cutoff 1..10 (container sometimes shorter than the cutoff), "
         "random operator strings with diagonal and off-diagonal ops whose inputs follow the propagated state; "
         "traj: one real sweep (Metropolis / heat-bath with the real or an inflated table) under a recorded RNG, replayed by the model; "
